@@ -402,6 +402,13 @@ def rule_req(ctx):
         good = mcb is not None and reaches_exec(ctx, mcb)
         R.ob('REQ-ret', key, good, 'require returns the value produced by make-consistent (%s)' % mc.qname if good
              else 'the returned value comes from %s which cannot reach an execution site' % mc.qname, ctx.where(body, mc.bb), props=('C09', 'C17', 'C01'))
+        # the node of the required task: looked up with the task that was given
+        for c in body.calls.values():
+            if roles.get_or_create_task is not None and F.callee_body(c) is not None and F.callee_body(c).id == roles.get_or_create_task.id:
+                to = body.orig_operand(c.args[1])
+                good = bool(to) and all(o.kind == 'arg' and o.key == 2 for o in to)
+                R.ob('REQ-dst-node', key, good, 'the graph node of the required task is looked up with the task that was required' if good
+                     else 'the node is looked up with %s' % body.describe_origins(to), ctx.where(body, c.bb), props=('C08', 'C15', 'C07'))
         # reserve before make-consistent, under "a task is executing"
         infc = ctx.infeasible(body, assume_cur=True)
         # the summaries of reserve/update must be computed under the same assumption
@@ -820,6 +827,13 @@ def rule_ops(ctx):
                 R.ob('OPS-stamp-args', key, good, 'the stamp is taken by the task\'s checker on the operation\'s resource' if good
                      else 'stamp taken with checker %s on resource %s' % (body.describe_origins(c0), body.describe_origins(r0)), ctx.where(body, sc.bb), props=('C09',))
                 dst_o = body.orig_operand(a.args[2])
+                # the node the dependency is recorded on is the node of the operation's own resource
+                gcs = [body.calls[o.key] for o in dst_o if o.kind == 'call' and o.key in body.calls]
+                good = len(gcs) == 1 and len(dst_o) == 1 and roles.get_or_create_resource is not None and F.callee_body(gcs[0]) is not None and \
+                    F.callee_body(gcs[0]).id == roles.get_or_create_resource.id and all(o.kind == 'arg' and o.key == 2 for o in body.orig_operand(gcs[0].args[1])) and bool(body.orig_operand(gcs[0].args[1]))
+                R.ob('OPS-dst-node', key, good, 'the dependency is recorded on the graph node of the operation\'s resource' if good
+                     else 'the graph node used for the dependency is looked up with %s, not with the operation\'s resource' % (body.describe_origins(body.orig_operand(gcs[0].args[1])) if gcs else body.describe_origins(dst_o)),
+                     ctx.where(body, a.bb), props=('C08', 'C15', 'C05', 'C06'))
                 _ops_specific(ctx, body, kind, key, sc, a, dst_o, infc, oks)
             _ops_tracker(ctx, body, kind, key, infc, oks)
 
